@@ -111,6 +111,8 @@ Encodable(x) ==
       [] x.n = "wc"   -> Len(ValBytes(x.v)) < 256 /\ x.a < 256
       [] x.n = "p1"   -> Len(x.y) < 256
       [] x.n = "p2"   -> Len(x.y) < 65536
+      [] x.n = "h32"  -> Len(x.y) = 32                     \* fixed-width operands: exactly 32 / 4 bytes, nothing shorter or longer
+      [] x.n = "f4"   -> Len(x.y) = 4
       [] x.n \in {"if", "loop", "def", "macro", "ct", "ctx"} -> EncodableSeq(x.b) /\ Len(EncSeq(x.b)) < 65536
                                                                 /\ (x.n # "if" \/ EncodableSeq(x.c))
       [] x.n \in {"ife", "try"} -> EncodableSeq(x.b) /\ EncodableSeq(x.c) /\ Len(EncSeq(x.b)) < 65536 /\ Len(EncSeq(x.c)) < 65536
